@@ -5,6 +5,8 @@
 -/
 import Model.Aggregate
 import Lemmas.Aggregate
+import Lemmas.AggStats
+import Lemmas.AggSpec
 import Generated.HelperTable
 
 namespace DI.C07
@@ -68,5 +70,225 @@ theorem too_few_elements_default (d : Bool) (x : Num) (ddof : Nat) (q : Rat) (i 
     vectorForm (.nth i) d [] = .missing ∧ vectorForm .sum d [] = .val 0 ∧ vectorForm .count d [] = .nat 0 ∧
     vectorForm .all d [] = .bool true ∧ vectorForm .any d [] = .bool false :=
   short_group_default d x ddof q i
+
+/-! ## characterisations of the statistics (Lemmas/AggStats.lean, Lemmas/AggSpec.lean)
+
+  Everything below is about a group after the NA policy has been applied: either a list of cells
+  `xs` with `hasNa xs = false`, or directly the list of values `l : List Rat`
+  (`kernels_on_values` ties the two together). -/
+
+/-- on a group holding the values `l` and no missing value, the kernels compute the statistics
+    `rsum`, `meanOf` (= sum / n by definition), `variance`, √`variance`, `medianOf`, `quantileOf`,
+    `minFold`, `maxFold` of `l` that the theorems below characterise. -/
+theorem kernels_on_values (l : List Rat) (q : Rat) (ddof : Nat) :
+    npSum (l.map some) = .val (rsum l) ∧ npMean (l.map some) = .val (meanOf l) ∧
+    npVar ddof (l.map some) = .val (variance l ddof) ∧ npStd ddof (l.map some) = .sqrt (variance l ddof) ∧
+    npMedian (l.map some) = .val (medianOf l) ∧ npQuantile q (l.map some) = .val (quantileOf l q) ∧
+    (∀ v vs, l = v :: vs → npMin (l.map some) = .val (minFold v vs) ∧ npMax (l.map some) = .val (maxFold v vs)) :=
+  np_of_values l q ddof
+
+/-- a group without missing values *is* the list of its values. -/
+theorem group_is_its_values (xs : List Num) (h : hasNa xs = false) : xs = (values xs).map some :=
+  eq_map_some_of_no_na xs h
+
+/-- min: the result is an element of the group and ≤ every element. -/
+theorem min_is_least_element (xs : List Num) (hna : hasNa xs = false) (hne : xs ≠ []) :
+    ∃ m, npMin xs = .val m ∧ m ∈ values xs ∧ ∀ x ∈ values xs, m ≤ x := npMin_spec xs hna hne
+
+/-- max: the result is an element of the group and ≥ every element. -/
+theorem max_is_greatest_element (xs : List Num) (hna : hasNa xs = false) (hne : xs ≠ []) :
+    ∃ m, npMax xs = .val m ∧ m ∈ values xs ∧ ∀ x ∈ values xs, x ≤ m := npMax_spec xs hna hne
+
+/-- `np.argmax` as used by mode: a valid position holding a maximal entry, every earlier entry
+    strictly smaller. -/
+theorem first_argmax_spec (counts : List Nat) (hne : counts ≠ []) :
+    ∃ h : firstArgmax counts < counts.length,
+      (∀ j (hj : j < counts.length), counts[j] ≤ counts[firstArgmax counts]) ∧
+      (∀ j (hj : j < firstArgmax counts), counts[j] < counts[firstArgmax counts]) :=
+  firstArgmax_spec counts hne
+
+/-- mode (pure kernel, `statistics.mode`): the result m is an element; no value occurs more often
+    than m; every other value occurring equally often first occurs after m's first occurrence. -/
+theorem mode_is_most_frequent_first (xs : List Num) (hne : xs ≠ []) :
+    ∃ m, modeOf xs = ofNum m ∧ m ∈ xs ∧ (∀ y, xs.count y ≤ xs.count m) ∧
+      (∀ y ∈ xs, y ≠ m → xs.count y = xs.count m → xs.idxOf m < xs.idxOf y) :=
+  mode_most_frequent_first xs hne
+
+/-- mode (Numba kernel): the same characterisation on a group without missing values. -/
+theorem mode_numba_is_most_frequent_first (xs : List Num) (hne : xs ≠ []) (hna : hasNa xs = false) :
+    ∃ m, modeNumba xs = some (ofNum m) ∧ m ∈ xs ∧ (∀ y, xs.count y ≤ xs.count m) ∧
+      (∀ y ∈ xs, y ≠ m → xs.count y = xs.count m → xs.idxOf m < xs.idxOf y) :=
+  modeNumba_most_frequent_first xs hne hna
+
+/-- mode on a list of values: both kernels return the same value m of the list, most frequent,
+    ties broken by first occurrence. -/
+theorem mode_of_values_both_kernels (l : List Rat) (hne : l ≠ []) :
+    ∃ m, modeOf (l.map some) = .val m ∧ modeNumba (l.map some) = some (.val m) ∧ m ∈ l ∧
+      (∀ y, l.count y ≤ l.count m) ∧
+      (∀ y ∈ l, y ≠ m → l.count y = l.count m → l.idxOf m < l.idxOf y) := mode_of_values l hne
+
+/-- count_unique without missing values, both paths: the length of the duplicate-free list of
+    the group's values; at most the group size; zero exactly for the empty group. -/
+theorem count_unique_is_number_of_distinct (d : Bool) (xs : List Num) (hna : hasNa xs = false) :
+    countUniqueOf d xs = (values xs).eraseDups.length ∧ countUniqueNumba xs = (values xs).eraseDups.length ∧
+    (values xs).eraseDups.Nodup ∧ (∀ v, v ∈ (values xs).eraseDups ↔ some v ∈ xs) ∧
+    countUniqueOf d xs ≤ xs.length ∧ (countUniqueOf d xs = 0 ↔ xs = []) := countUnique_spec d xs hna
+
+/-- "number of distinct values" is well defined: every duplicate-free list with the same
+    elements as `l` has the length of `l.eraseDups`. -/
+theorem number_of_distinct_unique (l d : List Rat) (hd : d.Nodup) (hmem : ∀ x, x ∈ d ↔ x ∈ l) :
+    d.length = l.eraseDups.length := eraseDups_length_unique l d hd hmem
+
+/-- nth with an index `0 ≤ i < len` returns `xs[i]`. -/
+theorem nth_nonneg_index (xs : List Num) (i : Int) (h0 : 0 ≤ i) (hlt : i < xs.length) :
+    nthOf xs i = ofNum (xs[i.toNat]'(by omega)) := nthOf_nonneg xs i h0 hlt
+
+/-- nth with an index `-len ≤ i < 0` returns `xs[len + i]`. -/
+theorem nth_negative_index (xs : List Num) (i : Int) (hneg : i < 0) (hge : -(xs.length : Int) ≤ i) :
+    nthOf xs i = ofNum (xs[(i + xs.length).toNat]'(by omega)) := nthOf_neg xs i hneg hge
+
+/-- nth with any other index returns the default (the column's missing value). -/
+theorem nth_out_of_range (xs : List Num) (i : Int) (h : (xs.length : Int) ≤ i ∨ i < -(xs.length : Int)) :
+    nthOf xs i = .missing ∧
+    (match kernel (.nth i) xs with | some r => r | none => defaultOf (.nth i)) = .missing :=
+  ⟨nthOf_out_of_range xs i h, (nth_kernel_default xs i).trans (nthOf_out_of_range xs i h)⟩
+
+/-- first = nth 0 is the first element, last = nth (-1) is the last element. -/
+theorem first_last_are_nth (xs : List Num) (hne : xs ≠ []) :
+    nthOf xs 0 = ofNum (xs.head hne) ∧ nthOf xs (-1) = ofNum (xs.getLast hne) :=
+  ⟨nthOf_zero xs hne, nthOf_neg_one xs hne⟩
+
+/-- the sort behind median and quantile returns an ordered permutation of the group, and it is
+    determined by the multiset of values. -/
+theorem sort_is_ordered_permutation (l : List Rat) :
+    (sortRat l).Perm l ∧ (sortRat l).Pairwise (· ≤ ·) ∧ (∀ l', l.Perm l' → sortRat l = sortRat l') :=
+  ⟨sortRat_perm l, sortRat_sorted l, fun _ p => sortRat_eq_of_perm p⟩
+
+/-- the first / last entry of the sorted list is the least / greatest element of the group. -/
+theorem sorted_ends_are_min_max (l : List Rat) (h : 0 < (sortRat l).length) :
+    ((sortRat l)[0] ∈ l ∧ ∀ x ∈ l, (sortRat l)[0] ≤ x) ∧
+    ((sortRat l)[(sortRat l).length - 1] ∈ l ∧ ∀ x ∈ l, x ≤ (sortRat l)[(sortRat l).length - 1]) :=
+  ⟨sortRat_head_is_min l h, sortRat_last_is_max l h⟩
+
+/-- median, odd length: the middle order statistic `s[n / 2]`. -/
+theorem median_odd_length (l : List Rat) (hodd : l.length % 2 = 1) :
+    medianOf l = (sortRat l)[l.length / 2]'(by rw [sortRat_length]; omega) := median_odd l hodd
+
+/-- median, even length: the mean of the two middle order statistics. -/
+theorem median_even_length (l : List Rat) (heven : l.length % 2 = 0) (hpos : 0 < l.length) :
+    medianOf l = ((sortRat l)[l.length / 2 - 1]'(by rw [sortRat_length]; omega) +
+      (sortRat l)[l.length / 2]'(by rw [sortRat_length]; omega)) / 2 := median_even l heven hpos
+
+/-- quantile, `0 ≤ q ≤ 1`: the position `h = (n - 1) q` has integer part `k = ⌊h⌋` with
+    `k ≤ h < k + 1` and `k < n`. -/
+theorem quantile_position (n : Nat) (hn : 0 < n) (q : Rat) (h0 : 0 ≤ q) (h1 : q ≤ 1) :
+    qIdx n q < n ∧ (qIdx n q : Rat) ≤ qPos n q ∧ qPos n q < (qIdx n q : Rat) + 1 :=
+  qIdx_spec n hn q h0 h1
+
+/-- quantile: linear interpolation `s[k] + (h - k) (s[k+1] - s[k])` between neighbouring order
+    statistics. -/
+theorem quantile_linear_interpolation (l : List Rat) (q : Rat) (hk : qIdx l.length q + 1 < l.length) :
+    quantileOf l q =
+      (sortRat l)[qIdx l.length q]'(by rw [sortRat_length]; omega) +
+        (qPos l.length q - (qIdx l.length q : Rat)) *
+          ((sortRat l)[qIdx l.length q + 1]'(by rw [sortRat_length]; omega) -
+           (sortRat l)[qIdx l.length q]'(by rw [sortRat_length]; omega)) := quantile_interp l q hk
+
+/-- quantile at the last order statistic (`k = n - 1`): that order statistic. -/
+theorem quantile_at_last (l : List Rat) (q : Rat) (h0 : 0 ≤ q) (h1 : q ≤ 1) (hne : l ≠ [])
+    (hk : ¬ qIdx l.length q + 1 < l.length) :
+    qIdx l.length q = l.length - 1 ∧
+    quantileOf l q = (sortRat l)[l.length - 1]'(by
+      rw [sortRat_length]; have := List.length_pos_iff.mpr hne; omega) := quantile_last l q h0 h1 hne hk
+
+/-- quantile 0 = min, quantile 1 = max, quantile 1/2 = median. -/
+theorem quantile_zero_one_half (xs : List Num) (hna : hasNa xs = false) (hne : xs ≠ []) :
+    npQuantile 0 xs = npMin xs ∧ npQuantile 1 xs = npMax xs ∧ npQuantile (1 / 2) xs = npMedian xs :=
+  quantile_special_cases xs hna hne
+
+/-- mean, median and every quantile (0 ≤ q ≤ 1) lie between any lower and any upper bound of
+    the group's values. -/
+theorem location_statistics_within_bounds (l : List Rat) (hne : l ≠ []) (q : Rat) (h0 : 0 ≤ q) (h1 : q ≤ 1)
+    (lo hi : Rat) (hlo : ∀ x ∈ l, lo ≤ x) (hhi : ∀ x ∈ l, x ≤ hi) :
+    (lo ≤ meanOf l ∧ meanOf l ≤ hi) ∧ (lo ≤ medianOf l ∧ medianOf l ≤ hi) ∧
+    (lo ≤ quantileOf l q ∧ quantileOf l q ≤ hi) :=
+  ⟨mean_bounds l hne lo hi hlo hhi, median_bounds l hne lo hi hlo hhi, quantile_bounds l hne q h0 h1 lo hi hlo hhi⟩
+
+/-- min ≤ mean, median, quantile ≤ max on every non-empty group without missing values. -/
+theorem min_le_location_le_max (xs : List Num) (hna : hasNa xs = false) (hne : xs ≠ [])
+    (q : Rat) (h0 : 0 ≤ q) (h1 : q ≤ 1) :
+    ∃ mn mx mean med qu, npMin xs = .val mn ∧ npMax xs = .val mx ∧ npMean xs = .val mean ∧
+      npMedian xs = .val med ∧ npQuantile q xs = .val qu ∧
+      mn ≤ mean ∧ mean ≤ mx ∧ mn ≤ med ∧ med ≤ mx ∧ mn ≤ qu ∧ qu ≤ mx :=
+  stats_between_min_max xs hna hne q h0 h1
+
+/-- sum: the empty sum is 0, one more element adds it, a concatenation sums the parts. -/
+theorem sum_of_concatenation (a b : List Rat) (x : Rat) :
+    rsum [] = 0 ∧ rsum (x :: a) = x + rsum a ∧ rsum (a ++ b) = rsum a + rsum b :=
+  ⟨rfl, rsum_cons x a, rsum_append a b⟩
+
+/-- mean = sum / n (so mean · n = sum for a non-empty group). -/
+theorem mean_is_sum_over_n (l : List Rat) (hne : l ≠ []) :
+    meanOf l = rsum l / l.length ∧ meanOf l * l.length = rsum l := ⟨rfl, mean_mul_length l hne⟩
+
+/-- var with `ddof`: Σ (x - mean)² / (n - ddof). -/
+theorem variance_formula (l : List Rat) (ddof : Nat) :
+    variance l ddof = rsum (l.map (fun x => (x - meanOf l) * (x - meanOf l))) / ((l.length : Rat) - ddof) :=
+  variance_eq l ddof
+
+/-- var ≥ 0 (so std = √var is defined) whenever n > ddof. -/
+theorem variance_is_nonneg (l : List Rat) (ddof : Nat) (h : ddof < l.length) : 0 ≤ variance l ddof :=
+  variance_nonneg l ddof h
+
+/-- var = 0 exactly when all elements of the group are equal (n > ddof). -/
+theorem variance_zero_iff_constant (l : List Rat) (ddof : Nat) (h : ddof < l.length) :
+    variance l ddof = 0 ↔ ∀ x ∈ l, ∀ y ∈ l, x = y := variance_eq_zero_iff l ddof h
+
+/-- the statistics on values do not depend on the order of the values. -/
+theorem statistics_order_free {a b : List Rat} (p : a.Perm b) (q : Rat) (ddof : Nat) :
+    rsum a = rsum b ∧ meanOf a = meanOf b ∧ variance a ddof = variance b ddof ∧
+    medianOf a = medianOf b ∧ quantileOf a q = quantileOf b q ∧ a.eraseDups.length = b.eraseDups.length :=
+  ⟨rsum_perm p, meanOf_perm p, variance_perm p ddof, medianOf_perm p, quantileOf_perm p q, eraseDups_length_perm p⟩
+
+/-- all / any / count / count_unique / min / max / mean / median / quantile / std / var / sum:
+    the group's result (either path, including missing values and the `nrequired` default) does
+    not depend on the order of the group's rows. -/
+theorem order_free_kernels (h : Helper) (ho : orderFree h = true) {xs ys : List Num} (p : xs.Perm ys) :
+    kernel h xs = kernel h ys ∧ kernelNumba h xs = kernelNumba h ys :=
+  ⟨kernel_perm h ho p, kernelNumba_perm h ho p⟩
+
+/-- the same for the vector form, NA policy included. -/
+theorem order_free_vector_form (h : Helper) (ho : orderFree h = true) (d : Bool) {xs ys : List Num}
+    (p : xs.Perm ys) : vectorForm h d xs = vectorForm h d ys := vectorForm_perm h ho d p
+
+/-- first / last / nth and mode are NOT order free — which is why the groups must be handed over
+    "in their original order" (`groups_cover_column`). -/
+theorem order_matters_for_nth_and_mode :
+    ([some 1, some 2] : List Num).Perm [some 2, some 1] ∧
+    nthOf [some 1, some 2] 0 ≠ nthOf [some 2, some 1] 0 ∧
+    nthOf [some 1, some 2] (-1) ≠ nthOf [some 2, some 1] (-1) ∧
+    nthOf [some 1, some 2] 1 ≠ nthOf [some 2, some 1] 1 ∧
+    modeOf [some 1, some 2] ≠ modeOf [some 2, some 1] ∧
+    modeNumba [some 1, some 2] ≠ modeNumba [some 2, some 1] := order_matters_counterexamples
+
+/-- all / any are the Boolean folds of "truthy" (non-zero, NaN counts as true), with the
+    defaults true / false on the empty group. -/
+theorem all_any_are_boolean_folds (xs : List Num) :
+    npAll xs = .bool (xs.foldr (fun x acc => truthy x && acc) true) ∧
+    npAny xs = .bool (xs.foldr (fun x acc => truthy x || acc) false) ∧
+    (npAll xs = .bool true ↔ ∀ x ∈ xs, truthy x = true) ∧
+    (npAny xs = .bool true ↔ ∃ x ∈ xs, truthy x = true) ∧
+    npAll [] = .bool true ∧ npAny [] = .bool false ∧
+    (∀ x, truthy x = true ↔ x ≠ some 0) :=
+  ⟨npAll_fold xs, npAny_fold xs, npAll_iff xs, npAny_iff xs, rfl, rfl, truthy_iff⟩
+
+/-- `group_form_eq_vector_form` and `groups_cover_column` without their avoidable hypothesis
+    `ids.length = xs.length`: the groups are consecutive pieces of the part of the column that
+    has a group id, and the group form is the vector form on each of them. -/
+theorem group_form_eq_vector_form_any_lengths (h : Helper) (d : Bool) (xs : List Num) (ids : List Nat)
+    (hall : (h = .all ∨ h = .any) → d = false) :
+    (chunks ids xs).flatten = xs.take ids.length ∧
+    groupForm h d xs ids = (chunks ids xs).map (fun xg => vectorForm h d xg) :=
+  ⟨chunks_flatten_take ids xs, group_eq_vector' h d xs ids hall⟩
 
 end DI.C07
